@@ -393,8 +393,7 @@ Definition scalar_modelled (T : ftype) (v : cval) : bool :=
   | TBool, VStr _ => true
   | TBool, _ => true
   | TInt _, VDec m e => dec_int_ok m e
-  | TUint _, VDec m e => dec_int_ok m e && (0 <=? m)
-  | TUint _, VInt z => 0 <=? z                           (* uint64 of a negative: kept out *)
+  | TUint _, VDec m e => dec_int_ok m e && (0 <=? m)          (* uint64 of a negative float is platform-defined: kept out *)
   | (TInt _ | TUint _), VStr s => str_int_modelled s
   | TFloat b, VInt z => (Z.abs z <=? two53) && ((b =? 64) || (sig_digits (match dec_of_Z z with VDec m _ => m | _ => 0 end) <=? 6))
   | TFloat b, VDec m e => dec_ok m e && ((b =? 64) || (sig_digits m <=? 6))
